@@ -122,7 +122,7 @@ def cppChoice (tys : List AType) (picked : CVal) : CRes :=
         match cppTypeForRange lo hi, resultType ty with
         | none, _ => .notype
         | _, none => .stuck
-        | some _, some none => .notype
+        | some _, some none => .staticAssert  -- integer IntermediateT, non-integer ResultT
         | some it, some (some rt) => if it ≠ rt then .staticAssert else castResult ty picked
 
 def maxVals (vs : List CVal) : Option CVal :=
